@@ -229,9 +229,75 @@ theorem C06_issue' (ho : StrictTotal N) (p : Proc N) (prog : List (Instr N)) (tb
 
 /-- **C06.** For a well-formed processor over names with a strict total order, every diagram of `simulate` passes the
 C06 checker. -/
-theorem C06_issue_of_order (ho : StrictTotal N) (p : Proc N) (prog : List (Instr N)) (tbl : List (Util N))
+theorem C06_issue (ho : StrictTotal N) (p : Proc N) (prog : List (Instr N)) (tbl : List (Util N))
     (stalled : Bool) (hwf : wfProc p = true) (h : Diagram p prog tbl stalled) :
     (Spec.C06 (ctx p prog tbl stalled)).ok = true :=
   (C06_ok_iff _).2 (C06_issue' ho p prog tbl stalled hwf h)
+
+/-- C06 for the driver's name type -/
+theorem C06_issue_string (p : Proc String) (prog : List (Instr String)) (tbl : List (Util String)) (stalled : Bool)
+    (hwf : wfProc p = true) (h : Diagram p prog tbl stalled) : (Spec.C06 (ctx p prog tbl stalled)).ok = true :=
+  C06_issue StrictTotal.string p prog tbl stalled hwf h
+
+/-- C06 for `Nat` names (the examples) -/
+theorem C06_issue_nat (p : Proc Nat) (prog : List (Instr Nat)) (tbl : List (Util Nat)) (stalled : Bool)
+    (hwf : wfProc p = true) (h : Diagram p prog tbl stalled) : (Spec.C06 (ctx p prog tbl stalled)).ok = true :=
+  C06_issue StrictTotal.nat p prog tbl stalled hwf h
+
+/-! ## Non-vacuity
+
+Two input ports: `0` (width 2, capability `7` in its memory ACL, read lock) and `1` (width 1, no ACL, read lock),
+both feeding output port `2` (width 2, write lock). Three independent instructions of capability `7`.
+
+Cycle 0: instruction 0 enters port `0` and takes the memory port; instruction 1 finds port `0` with room but
+memory-blocked and enters port `1` (the first *usable* port is not the first port); instruction 2 is held back — port
+`0` needs the taken memory port, port `1` is full (both reasons of the third clause occur). Cycle 1: 0 and 1 move on,
+instruction 2 enters port `0`. -/
+namespace C06Example
+
+def inA : UnitM Nat := ⟨0, 2, [7], true, false, [7]⟩
+def inB : UnitM Nat := ⟨1, 1, [7], true, false, []⟩
+def outP : UnitM Nat := ⟨2, 2, [7], false, true, []⟩
+def proc : Proc Nat := { inPorts := [inB, inA], outPorts := [⟨outP, [0, 1]⟩], inOut := [], internal := [] }
+def prog : List (Instr Nat) := [⟨[10], 11, 7⟩, ⟨[12], 13, 7⟩, ⟨[14], 15, 7⟩]
+
+example : wfProc proc = true := by decide
+
+/-- ports are tried by name, not in the stored order -/
+example : (sortedInputs proc).map (·.name) = [0, 1] := by decide
+
+example : (match simulate proc prog with
+    | .done tbl =>
+      tbl.length == 3 &&
+      -- cycle 0: instruction 0 in port 0, instruction 1 in port 1, instruction 2 outside
+      ((tbl.getD 0 ([] : List (Nat × List HI))).get 0).map (·.idx) == [0] &&
+      ((tbl.getD 0 ([] : List (Nat × List HI))).get 1).map (·.idx) == [1] &&
+      issuedBy (ctx proc prog tbl false) 0 == 2 &&
+      -- port 0 was not full, but memory-blocked for instruction 1; port 1 is full for instruction 2
+      !(ctx proc prog tbl false).full 0 inA && (ctx proc prog tbl false).memTakenByOther 0 2 &&
+      (ctx proc prog tbl false).full 0 inB &&
+      !usableAtTurn (ctx proc prog tbl false) 0 1 inA && usableAtTurn (ctx proc prog tbl false) 0 1 inB &&
+      -- cycle 1: instruction 2 enters port 0
+      ((tbl.getD 1 ([] : List (Nat × List HI))).get 0).map (·.idx) == [2] &&
+      (ctx proc prog tbl false).firstCycle 2 == some 1 &&
+      (Spec.C06 (ctx proc prog tbl false)).ok
+    | _ => false) = true := by decide
+
+def isDone : Outcome Nat → Bool
+  | .done _ => true
+  | _ => false
+
+/-- the hypotheses of `C06_issue` are satisfiable and the theorem applies to the diagram -/
+example : ∃ tbl, Diagram proc prog tbl false ∧ (Spec.C06 (ctx proc prog tbl false)).ok = true ∧
+    C06_Holds (ctx proc prog tbl false) := by
+  have hd : isDone (simulate proc prog) = true := by decide
+  cases h : simulate proc prog with
+  | done tbl =>
+    exact ⟨tbl, Or.inl ⟨rfl, h⟩, C06_issue_nat proc prog tbl false (by decide) (Or.inl ⟨rfl, h⟩),
+      C06_issue' StrictTotal.nat proc prog tbl false (by decide) (Or.inl ⟨rfl, h⟩)⟩
+  | stall tbl => rw [h] at hd; cases hd
+  | fault f => rw [h] at hd; cases hd
+
+end C06Example
 
 end ProcSim
